@@ -169,6 +169,18 @@ package values
 //@ interface values.Value
 //@ method Interface pure
 //@ method Test pure
+//@ method Equal
+//@ requires arg: arg0 != nil
+//@ assigns F$values.dropWrapper$d, F$values.dropWrapper$v, F$values.dropWrapper$Once
+//@ ensures drops: invkept(values.dropWrapper)
+//@ method Less
+//@ requires arg: arg0 != nil
+//@ assigns F$values.dropWrapper$d, F$values.dropWrapper$v, F$values.dropWrapper$Once
+//@ ensures drops: invkept(values.dropWrapper)
+//@ method Contains
+//@ requires arg: arg0 != nil
+//@ assigns F$values.dropWrapper$d, F$values.dropWrapper$v, F$values.dropWrapper$Once
+//@ ensures drops: invkept(values.dropWrapper)
 //@ method IndexValue
 //@ requires arg: arg0 != nil
 //@ assigns F$values.dropWrapper$d, F$values.dropWrapper$v, F$values.dropWrapper$Once
